@@ -154,10 +154,21 @@ def check(R):
         # the advancing branch: blocks that write max_ctr
         adv = [(i, j, s) for (i, j, s) in rp.field_writes('max_ctr:' + RX)]
         R.floor('writes of max_ctr in post_recv', len(adv), 2)
-        enc_false = set()
-        for l in range(1, rp.argc + 1):
-            if rp.local_name(l) == 'is_encrypted':
-                enc_false |= prims.bool_local_edges(rp, l)[1]
+        # post_recv(&mut self, msg_ctr, is_encrypted, is_rollover): the third argument (callers pass Session::is_encrypted(), clause a)
+        ENC_ARG = 3
+        enc_true, enc_false = prims.bool_local_edges(rp, ENC_ARG)
+        # "unsecured sessions additionally accept a restart of the peer's counter": a refusal that is not the in-window duplicate verdict
+        # (bit already set) is reachable only for an encrypted session
+        falses = [bb for bb, k, pl_ in prims.result_defs(rp) if k == 'const' and pl_ == 0]
+        R.floor('`false` verdicts of RxCtrState::post_recv', len(falses), 2)
+        dupv = set()
+        for t in rp.calls(RX + '::contains'):
+            dupv |= prims.track_result(F, rp, t).success
+        for bb, te_, fe_ in prims.cmp_guard_edges(rp, 'Eq', lambda s_: any(x[0] == 'arg' and x[1] == 2 for x in s_), lambda s_: mentions(s_, 'max_ctr')):
+            dupv |= te_      # msg_ctr == self.max_ctr: the newest counter again
+        not_dup = [b for b in falses if b in prims.reach(rp, (0,), cut_edges=dupv)]
+        R.floor('out-of-window refusal in RxCtrState::post_recv', len(not_dup), 1)
+        R.cut('P2', rp, 'refuse a counter that is not an in-window duplicate', not_dup, 'the session is encrypted (an unsecured peer may have restarted its counter)', enc_true)
         const_stores = []
         for (i, j, s) in rp.field_writes('ctr_bitmap:' + RX):
             rv = s[1]
